@@ -336,6 +336,12 @@ impl ColumnarGrouper {
                     }
                     Some(ScalarValue::Float64(f64_val))
                 } else if let Some(str_val) = accessor.get_str_at(&self.link_field, row_idx) {
+                    // A NULL link value reaches the streaming zones as the text "null" (memtable,
+                    // typed columns, column missing in a batch) or as "" (flushed string column):
+                    // such a row has no link value and must not be grouped with other NULL rows
+                    if str_val.is_empty() || str_val == "null" {
+                        return None;
+                    }
                     if tracing::enabled!(tracing::Level::DEBUG) {
                         debug!(
                             target: "sneldb::sequence::group",
